@@ -4,16 +4,36 @@
      request:  <method> <arg>* E      ints decimal, doubles x<16 hex digits>, strings s<%-escaped>;
                                       a parameter of type Crystal_Struct is given as the crystal's name
      answer:   ok <value>*            |  throw <exception class> m<%-escaped message>
-     `!methods` lists the public static methods of Xraylib as name(type,...)->type. */
+     `!methods` lists the public static methods of Xraylib as name(type,...)->type.
+   History sessions (the lines of one session are run in one process, in order; harness/xdrv.c speaks the same ops on the C side):
+     @<k> <method> <arg>* E      call, answer as usual, and KEEP the returned object in slot k
+     !mut <k> E                  write a sentinel into EVERY public mutable part of the object in slot k, found by reflection: every element of every
+                                 array reachable through public fields and public zero-argument getters (elements that are objects are first mutated
+                                 themselves, then replaced by a foreign instance), every non-final public field.  answer: ok <writes> <path>=<writes>*
+     !show <k> E                 render the object in slot k
+     !copy <j> <k> E             slot j = new T(slot k) through the public copy constructor of the object's class (ok 1), ok 0 if there is none
+     !drop <k> E                 forget slot k
+     $<k> as an argument         the object in slot k (for parameters of class type)
+     `!classes` describes, for every class a public static method returns (and the classes reachable from it), the public fields
+     (name:type:final|MUTABLE), the array-returning getters and whether a public copy constructor exists. */
 import java.io.BufferedReader;
 import java.io.InputStreamReader;
 import java.io.PrintStream;
 import java.io.BufferedOutputStream;
 import java.lang.reflect.InvocationTargetException;
+import java.lang.reflect.Array;
+import java.lang.reflect.Constructor;
+import java.lang.reflect.Field;
 import java.lang.reflect.Method;
 import java.lang.reflect.Modifier;
 import java.nio.charset.StandardCharsets;
+import java.nio.ByteBuffer;
 import java.util.ArrayList;
+import java.util.Arrays;
+import java.util.IdentityHashMap;
+import java.util.LinkedHashMap;
+import java.util.LinkedHashSet;
+import java.util.Set;
 import java.util.HashMap;
 import java.util.List;
 import java.util.Map;
@@ -66,6 +86,103 @@ public class XrlDrv {
     else o.append(" ?").append(r.getClass().getName());
   }
 
+
+  /* ---------------------------------------------------------------- history sessions */
+  static Object[] slots = new Object[16];
+  static final String PKG = Xraylib.class.getPackage().getName();
+
+  static boolean ours(Class<?> c) { return c != null && !c.isPrimitive() && !c.isArray() && c.getPackage() != null && c.getPackage().getName().equals(PKG); }
+
+  /* a foreign instance of an element class: built from a byte pattern through the class's (protected) ByteBuffer constructor, which any
+     subclass written by a user may call; else a copy of a neighbouring element; else null */
+  static Object foreign(Class<?> comp, Object arr, int i) {
+    try {
+      Constructor<?> k = comp.getDeclaredConstructor(ByteBuffer.class);
+      k.setAccessible(true);
+      byte[] b = new byte[4096]; Arrays.fill(b, (byte) 0xC0);
+      return k.newInstance(ByteBuffer.wrap(b));
+    } catch (Throwable e) { /* next */ }
+    try {
+      int n = Array.getLength(arr);
+      Object other = Array.get(arr, (i + 1) % n);
+      if (n > 1 && other != null) return comp.getConstructor(comp).newInstance(other);
+    } catch (Throwable e) { /* next */ }
+    return null;
+  }
+  static Object sentinel(Class<?> t, int w) {
+    if (t == int.class) return -(7770 + w);
+    if (t == double.class) return -(1234.5 + w);
+    if (t == long.class) return (long) -(7770 + w);
+    if (t == float.class) return (float) -(1234.5 + w);
+    if (t == short.class) return (short) -(77 + w);
+    if (t == byte.class) return (byte) -(7 + w);
+    if (t == char.class) return '#';
+    if (t == boolean.class) return (w & 1) == 0;
+    if (t == String.class) return "MUT" + w;
+    return null;
+  }
+  static int mutate(Object o, String path, Map<String, Integer> rep, IdentityHashMap<Object, Boolean> seen, int depth) throws Exception {
+    if (o == null || depth > 6 || seen.containsKey(o)) return 0;
+    seen.put(o, true);
+    Class<?> c = o.getClass();
+    int w = 0;
+    if (c.isArray()) {
+      Class<?> comp = c.getComponentType();
+      int n = Array.getLength(o);
+      for (int i = 0; i < n; i++) {
+        if (comp.isPrimitive() || comp == String.class) { Array.set(o, i, sentinel(comp, i)); w++; }
+        else {
+          Object old = Array.get(o, i);
+          w += mutate(old, path + "[]", rep, seen, depth + 1);          /* the element the library may still refer to ... */
+          Array.set(o, i, comp.isArray() ? null : foreign(comp, o, i)); w++;      /* ... and the array cell */
+        }
+      }
+      rep.merge(path + "[*]", n, Integer::sum);
+      return w;
+    }
+    if (!ours(c)) return 0;                 /* String, boxed numbers, Complex: no public mutable state (Complex: checked by !classes) */
+    for (Field f : c.getFields()) {
+      if (Modifier.isStatic(f.getModifiers())) continue;
+      Object v = f.get(o);
+      String p = path + "." + f.getName();
+      if (v != null && (v.getClass().isArray() || ours(v.getClass()))) w += mutate(v, p, rep, seen, depth + 1);
+      if (!Modifier.isFinal(f.getModifiers())) {
+        Class<?> t = f.getType();
+        Object sv = t.isArray() ? Array.newInstance(t.getComponentType(), 0) : sentinel(t, w);      /* object-typed fields other than String and arrays: null */
+        f.set(o, sv); w++; rep.merge(p + "=", 1, Integer::sum);
+      }
+    }
+    for (Method m : c.getMethods()) {       /* arrays handed out by public getters (compoundDataBase.getElements() ...) */
+      if (Modifier.isStatic(m.getModifiers()) || m.getParameterCount() != 0 || !ours(m.getDeclaringClass())) continue;
+      Class<?> rt = m.getReturnType();
+      if (!rt.isArray() && !ours(rt)) continue;
+      Object v;
+      try { v = m.invoke(o); } catch (InvocationTargetException e) { continue; }
+      w += mutate(v, path + "." + m.getName() + "()", rep, seen, depth + 1);
+    }
+    return w;
+  }
+  static void describe(Class<?> c, Set<Class<?>> done, StringBuilder o) {
+    while (c.isArray()) c = c.getComponentType();
+    if (c.isPrimitive() || c == String.class || !done.add(c)) return;
+    StringBuilder d = new StringBuilder(c.getSimpleName()).append('{');
+    List<Class<?>> next = new ArrayList<>();
+    for (Field f : c.getFields()) {
+      if (Modifier.isStatic(f.getModifiers())) continue;
+      d.append(f.getName()).append(':').append(f.getType().getSimpleName()).append(':').append(Modifier.isFinal(f.getModifiers()) ? "final" : "MUTABLE").append(',');
+      next.add(f.getType());
+    }
+    for (Method m : c.getMethods()) {
+      if (Modifier.isStatic(m.getModifiers()) || m.getParameterCount() != 0 || m.getDeclaringClass() == Object.class) continue;
+      if (m.getReturnType().isArray()) d.append(m.getName()).append("():").append(m.getReturnType().getSimpleName()).append(',');
+    }
+    boolean cc = false;
+    try { cc = Modifier.isPublic(c.getConstructor(c).getModifiers()); } catch (NoSuchMethodException e) { /* none */ }
+    d.append("copyctor=").append(cc ? "yes" : "no").append('}');
+    o.append(' ').append(d);
+    if (ours(c)) for (Class<?> n : next) describe(n, done, o);
+  }
+
   static Map<String, List<Method>> methods = new HashMap<>();
 
   public static void main(String[] argv) throws Exception {
@@ -91,6 +208,39 @@ public class XrlDrv {
         }
         out.println(o); out.flush(); continue;
       }
+      if (t[0].equals("!classes")) {
+        StringBuilder o = new StringBuilder("ok"); Set<Class<?>> done = new LinkedHashSet<>();
+        for (List<Method> l : methods.values()) for (Method m : l) describe(m.getReturnType(), done, o);
+        out.println(o); out.flush(); continue;
+      }
+      if (t[0].equals("!mut") || t[0].equals("!show") || t[0].equals("!drop") || t[0].equals("!copy")) {
+        StringBuilder o = new StringBuilder("ok");
+        try {
+          int k = Integer.parseInt(t[1]);
+          if (t[0].equals("!mut")) {
+            Map<String, Integer> rep = new LinkedHashMap<>();
+            Object v = slots[k];
+            int w = mutate(v, v == null ? "null" : v.getClass().getSimpleName(), rep, new IdentityHashMap<>(), 0);
+            i(o, w); for (Map.Entry<String, Integer> e : rep.entrySet()) o.append(' ').append(e.getKey().replace(' ', '_')).append(e.getValue());
+          } else if (t[0].equals("!show")) {
+            if (slots[k] == null) o = new StringBuilder("bad-op empty slot"); else render(o, slots[k]);
+          } else if (t[0].equals("!drop")) { slots[k] = null; i(o, 0); }
+          else {
+            int src = Integer.parseInt(t[2]); Object v = slots[src]; int done = 0;
+            if (v != null) try { slots[k] = v.getClass().getConstructor(v.getClass()).newInstance(v); done = 1; } catch (NoSuchMethodException e) { /* no copy constructor */ }
+            i(o, done);
+          }
+          out.println(o);
+        } catch (InvocationTargetException e) {
+          Throwable c = e.getCause();
+          out.println("throw " + c.getClass().getSimpleName() + " m" + esc(String.valueOf(c.getMessage())));
+        } catch (Exception e) {
+          out.println("throw " + e.getClass().getSimpleName() + " m" + esc(String.valueOf(e.getMessage())));
+        }
+        out.flush(); continue;
+      }
+      int keep = -1;
+      if (t[0].startsWith("@")) { keep = Integer.parseInt(t[0].substring(1)); t = Arrays.copyOfRange(t, 1, t.length); }
       int nargs = t.length - 2;
       Method m = null;
       List<Method> cands = methods.get(t[0]);
@@ -102,13 +252,15 @@ public class XrlDrv {
         Object[] a = new Object[nargs];
         for (int k = 0; k < nargs; k++) {
           String x = t[k + 1];
-          if (p[k] == int.class) a[k] = Integer.parseInt(x);
+          if (x.startsWith("$")) { a[k] = slots[Integer.parseInt(x.substring(1))]; if (a[k] == null || !p[k].isInstance(a[k])) throw new IllegalStateException("driver: slot " + x + " does not hold a " + p[k].getSimpleName()); }
+          else if (p[k] == int.class) a[k] = Integer.parseInt(x);
           else if (p[k] == double.class) a[k] = Double.longBitsToDouble(Long.parseUnsignedLong(x.substring(1), 16));
           else if (p[k] == String.class) a[k] = unesc(x.substring(1));
           else if (p[k] == Crystal_Struct.class) a[k] = Xraylib.Crystal_GetCrystal(unesc(x.substring(1)));
           else throw new IllegalStateException("driver: no parser for parameter type " + p[k]);
         }
         Object r = m.invoke(null, a);
+        if (keep >= 0) slots[keep] = r;
         render(o, r);
         out.println(o);
       } catch (InvocationTargetException e) {
